@@ -91,11 +91,11 @@ def run(ctx):
     rgc = ctx.rule('R-GUARDCALLS', 'Guard<M,Shared>: mode of every call into the mutex, state transition before the '
                    'call, TryLock resets on failure, Release never unlocks', minimum=8)
     for cfg, fb in sorted(fbs.items()):
-        lib_guard.check_guard_state(ctx, fb, rgs)
-        lib_guard.check_guard_calls(ctx, fb, rgc)
-        lib_order.check_cas_fresh(ctx, fb, rcf, lambda f: 'MutexImpl' in f.qn)
-        lib_shape.check(ctx, fb, rsh, lambda qn: 'MutexImpl' in qn, 4)
-        lib_order.check(ctx, fb, cfg, [SENDER], rw, ro, rc)
+        ctx.guard(lambda: lib_guard.check_guard_state(ctx, fb, rgs))
+        ctx.guard(lambda: lib_guard.check_guard_calls(ctx, fb, rgc))
+        ctx.guard(lambda: lib_order.check_cas_fresh(ctx, fb, rcf, lambda f: 'MutexImpl' in f.qn))
+        ctx.guard(lambda: lib_shape.check(ctx, fb, rsh, lambda qn: 'MutexImpl' in qn, 4))
+        ctx.guard(lambda: lib_order.check(ctx, fb, cfg, [SENDER], rw, ro, rc))
         fns = [f for f in fb.fn.values() if f.clsq == M and f.cfg is not None]
         opts = {f.cls for f in fns}
         if len(opts) < 4:
@@ -226,4 +226,4 @@ def run(ctx):
                         ctx.report(rg, key, f.where, 'the guard must unlock in its destructor exactly when it owns the '
                                    'lock')
                         break
-        lib_coro.check_suspend_result(ctx, fb, rs)
+        ctx.guard(lambda: lib_coro.check_suspend_result(ctx, fb, rs))
